@@ -17,6 +17,7 @@ import (
 	"runtime"
 	"runtime/debug"
 	"strconv"
+	"time"
 
 	"verif/dst/props"
 	"verif/dst/sim"
@@ -76,10 +77,17 @@ func envSeed() uint64 {
 func runPlan(pr *props.Property, p *sim.Plan, hist bool, multiP bool) *sim.Result {
 	if !multiP && os.Getenv("DST_NO_DRYRUN") == "" {
 		sim.Run(p.Clone(), sim.RunOpts{}, pr.Run)
-		runtime.GC()
-		runtime.GC()
+		quiesce()
 	}
-	return sim.Run(p.Clone(), sim.RunOpts{KeepHistory: hist, MultiP: multiP}, pr.Run)
+	if raceEnabled {
+		raceLogReset()
+	}
+	res := sim.Run(p.Clone(), sim.RunOpts{KeepHistory: hist, MultiP: multiP}, pr.Run)
+	if raceEnabled {
+		// (the reports are part of the run's verdict, not of its history digest)
+		res.Violations = append(res.Violations, raceViolations(p.Prop)...)
+	}
+	return res
 }
 
 // workerMain: prints "S <idx>" before each run and "R <json>" after it.
@@ -212,4 +220,28 @@ func enumMain(args []string) {
 	}
 	b, _ := json.Marshal(w)
 	fmt.Println("E " + string(b))
+}
+
+// quiesce empties the sync.Pools and lets the runtime's background work that the dry run left
+// behind come to rest before the run that counts: the finalizers of its garbage run on the
+// finalizer goroutine, which takes scheduling slots (and locks of process-global registries) at
+// moments that depend on real time. A sentinel's finalizer tells when the queue has been worked off.
+func quiesce() {
+	type sentinel struct {
+		p *int
+		_ [48]byte
+	}
+	for i := 0; i < 2; i++ {
+		runtime.GC()
+		done := make(chan struct{})
+		s := &sentinel{p: new(int)}
+		runtime.SetFinalizer(s, func(*sentinel) { close(done) })
+		s = nil
+		runtime.GC()
+		select {
+		case <-done:
+		case <-time.After(2 * time.Second):
+		}
+	}
+	time.Sleep(2 * time.Millisecond)
 }
